@@ -158,15 +158,20 @@ Fixpoint take_digits (s : list N) (acc : nat) (seen : bool) : option (nat * list
   | [] => if seen then Some (acc, s) else None
   end.
 
-(* \p{Name} / \pL after the backslash-p has been consumed *)
+(* \p{Name} / \pL after the backslash-p has been consumed.  Only what regex-syntax can ever accept as a property
+   specification: ASCII letters, digits, _ = : ! ^ and space between the braces, one ASCII letter without braces. *)
+Definition is_name_char (c : N) : bool :=
+  in_range 97 122 c || in_range 65 90 c || is_digit c || existsb (N.eqb c) [95;61;58;33;94;32]%N.
 Fixpoint take_until_rbrace (s : list N) (acc : list N) : option (list N * list N) :=
   match s with
-  | c :: s' => if N.eqb c ch_rbrace then Some (rev acc, s') else take_until_rbrace s' (c :: acc)
+  | c :: s' => if N.eqb c ch_rbrace then Some (rev acc, s')
+               else if is_name_char c then take_until_rbrace s' (c :: acc) else None
   | [] => None
   end.
 Definition parse_cat_name (s : list N) : option (list N * list N) :=
   match s with
-  | c :: s' => if N.eqb c ch_lbrace then take_until_rbrace s' [] else Some ([c], s')
+  | c :: s' => if N.eqb c ch_lbrace then take_until_rbrace s' []
+               else if in_range 97 122 c || in_range 65 90 c then Some ([c], s') else None
   | [] => None
   end.
 
@@ -193,7 +198,10 @@ Definition parse_escape (s : list N) : option (citem * list N) :=
       else None                      (* the regex crate rejects unknown escapes of letters/digits *)
   end.
 
-(* class body after '[' and optional '^'; [first] allows a literal ']' in first position *)
+(* class body after '[' and optional '^'; [first] allows a literal ']' in first position.
+   The set operators of the regex crate (-- && ~~) and nested classes are not in the fragment: they make the parse
+   fail, so that every accepted class is read with the structure the regex crate gives it. *)
+Definition is_setop (c : N) : bool := N.eqb c 45 || N.eqb c 38 || N.eqb c 126.
 Fixpoint parse_class (fuel : nat) (s : list N) (acc : list citem) (first : bool) : option (list citem * list N) :=
   match fuel with
   | O => None
@@ -202,6 +210,7 @@ Fixpoint parse_class (fuel : nat) (s : list N) (acc : list citem) (first : bool)
       | [] => None
       | c :: s' =>
           if N.eqb c ch_rbrack && negb first then Some (rev acc, s')
+          else if is_setop c && match s' with d :: _ => N.eqb d c | [] => false end then None
           else
             let item :=
               if N.eqb c ch_bs then parse_escape s'
@@ -216,6 +225,7 @@ Fixpoint parse_class (fuel : nat) (s : list N) (acc : list citem) (first : bool)
                       match r2 with
                       | e :: r3 =>
                           if N.eqb e ch_rbrack then parse_class f r1 (CChar lo :: acc) false
+                          else if N.eqb e ch_minus then None
                           else
                             let hi_item := if N.eqb e ch_bs then parse_escape r3 else Some (CChar e, r3) in
                             match hi_item with
